@@ -121,3 +121,34 @@ func HCanonicalIdentity() {
 		vr.Assert("c12.canonical", vr.EqBytes(b, b2))
 	}
 }
+
+// HStableLiberal (C12): stability on datagrams larger than the arbitrary-bytes bound - datagrams of the
+// independent encoder using the sender's liberties (arbitrary reserved fields and flags, transforms in
+// another order): what the library decodes from them re-encodes, and the re-encoding decodes to an
+// equal message and is a fixed point.  Params: tier, perm (0..2), payload kinds..., 0.
+func HStableLiberal() {
+	m := VGenMessage(2, vr.Param(0))
+	b := VRefEncode(m, true, vr.Param(1))
+	m1 := new(IKEMessage)
+	if err := m1.Decode(b); err != nil {
+		vr.Assert("c12.liberal.decode", false)
+		return
+	}
+	b2, err := m1.Encode()
+	vr.Assert("c12.liberal.encode", err == nil)
+	if err != nil {
+		return
+	}
+	m2 := new(IKEMessage)
+	err = m2.Decode(b2)
+	vr.Assert("c12.redecode.ok", err == nil)
+	if err != nil {
+		return
+	}
+	vr.Assert("c12.equal", VEqMessage(m1, m2))
+	b3, err := m2.Encode()
+	vr.Assert("c12.reencode.ok", err == nil)
+	if err == nil {
+		vr.Assert("c12.fixpoint", vr.EqBytes(b2, b3))
+	}
+}
